@@ -221,6 +221,9 @@ class TermRule(BaseRule):
             it.assign(s, stmt.target, AV("tuple", tuple(tv(T(f"each{i}", I)) for i in range(n)), truth=True, none=False))
         else:
             it.assign(s, stmt.target, tv(T("each", I)))
+        iop, iargs = destruct(I)
+        if (iop in ("split", "rsplit") and len(iargs) >= 2) or iop in ("partition", "rpartition"):
+            return [(s, True)]  # str.split(sep) / partition never yield an empty sequence: no zero-iteration path
         return [(s, True), (st.copy(), False)]
 
     def comprehension(self, it, st, node):
@@ -330,6 +333,59 @@ class TermRule(BaseRule):
         ast.fix_missing_locations(expr)
         res, raises = it.truth_fork(st, expr)
         return list(raises) + [Out("normal", s, const(b)) for s, b in res]
+
+    def _signature(self, it, node, recv, q):
+        """positional-or-keyword parameter names of a repo callee (None when the callee is not a repo function)"""
+        m = it.m
+        f = node.func
+        fi = None
+        if isinstance(f, ast.Attribute):
+            if recv is not None and recv.kind == "self" and it.self_cls:
+                fi = m.find_method(it.self_cls, f.attr)
+            elif isinstance(f.value, ast.Name) and f.value.id == "cls" and it.self_cls:
+                fi = m.find_method(it.self_cls, f.attr)
+            elif isinstance(f.value, ast.Call) and ast.unparse(f.value.func) == "super" and it.self_cls:
+                for c in m.mro(it.self_cls)[1:]:
+                    ci = m.classes.get(c)
+                    if ci is not None and f.attr in ci.methods:
+                        fi = ci.methods[f.attr]
+                        break
+            elif q and q in m.funcs:
+                fi = m.funcs[q]
+        elif isinstance(f, ast.Name) and q:
+            if q in m.funcs:
+                fi = m.funcs[q]
+            elif q in m.classes:
+                fi = m.find_method(q, "__init__")
+                if fi is None or not fi.qual.startswith("urllib3."):
+                    ci = m.classes[q]
+                    names = [n.target.id for n in ci.node.body if isinstance(n, ast.AnnAssign) and isinstance(n.target, ast.Name)]
+                    return names or None
+        if fi is None or not fi.qual.startswith("urllib3."):
+            return None
+        a = fi.node.args
+        names = [x.arg for x in a.posonlyargs + a.args]
+        if fi.cls is not None and names and names[0] in ("self", "cls") and not any("staticmethod" in d for d in fi.decorators):
+            names = names[1:]
+        return names
+
+    def _canon_args(self, it, node, recv, q, pos, kw):
+        """f(a, y=b) and f(a, b) are the same call when y is f's second parameter: keywords that continue the positional
+        prefix of a repo callee's signature are moved into it."""
+        if not kw or "*" in kw:
+            return pos, kw
+        try:
+            names = self._signature(it, node, recv, q)
+        except Exception:
+            names = None
+        if not names:
+            return pos, kw
+        pos, kw = list(pos), dict(kw)
+        i = len(pos)
+        while i < len(names) and names[i] in kw:
+            pos.append(kw.pop(names[i]))
+            i += 1
+        return pos, kw
 
     def compare(self, it, st, node, a, b):
         """x[:n] == "lit" (len n), x[-n:] == "lit", x[0] == "c", x[-1] == "c" are the questions startswith / endswith ask:
